@@ -108,12 +108,11 @@ CLAIMED.update({
             "answers (child at time zero, twin, uniform mutation on an edge / block, mutation between a "
             "fixed and a free end) equal the answer written from the definition, with mean-between-the-ends "
             "and variance > 0; (3) moments, unphased_moments, leafward_moments, rootward_moments, "
-            "sideways_moments equal ratios of normalising integrals derived independently in the harness "
+            "sideways_moments, mutation_moments, mutation_unphased_moments, mutation_sideways_moments equal ratios of normalising integrals derived independently in the harness "
             "(validated once against quadrature), with log 2F1 / 1F1 / U uninterpreted.",
             "Narrowed: agreement of the Laplace approximations with numerical integration 'to within a few "
             "percent' and support facts needing the value of a transcendental ratio are not decidable by an "
-            "SMT solver; they are used only as the replay oracle (quadrature on a fixed grid). The "
-            "mutation_moments / mutation_unphased / mutation_sideways algebra is not re-derived.",
+            "SMT solver; they are used only as the replay oracle (quadrature on a fixed grid).",
             TECH + "; differential against an in-harness reference", "4/C18"),
     "C19": ("For every positive real x (symbolic, piecewise over the axis) z3 proves the executed arithmetic of "
             "_digamma/_trigamma equal to the exact recurrence plus the Stirling series with exact Bernoulli "
